@@ -262,9 +262,9 @@ func cfgRun(args []string) error {
 	keep := fs.Bool("keep", false, "")
 	timeout := fs.Int("timeout", 90, "seconds per CLI run")
 	fs.Parse(args)
-	// file modes are compared literally with the configured permission string: run with an empty umask so that the
-	// process' umask (an input of the environment, not of the configuration) does not mask bits
-	syscall.Umask(0)
+	// file modes are compared literally with the configured permission string - under the usual umask 022: the configured
+	// permissions are a promise about the file, whatever the environment masks at creation (the generator sets the mode explicitly)
+	syscall.Umask(0o022)
 	cases, err := loadCfgCases(*casesPath)
 	if err != nil {
 		return err
